@@ -206,6 +206,14 @@ def _dstar_has(m, e, key):
 def _ndim_aware(f):
     if 'use_ndim' in f.all_params:
         return True
+    if f.cls == 'DTWSettings':
+        return True
+    # a settings object (which carries use_ndim) is built in the function
+    for s in walk_stmts(f.body):
+        if s.k == 'assign' and s.value[0] == 'call':
+            d = dotted(s.value[1]) or ''
+            if d.split('.')[-1] == 'DTWSettings' or d.endswith('DTWSettings.for_dtw'):
+                return True
     for s in walk_stmts(f.body):
         for e in stmt_exprs(s):
             for sub in walk_expr(e):
